@@ -58,7 +58,8 @@ class SigModel:
             return
         k = self.keep if keep_alloc is None else keep_alloc
         if k:
-            self.G = self.G * 0
+            # zero of the same shape and type (not G*0: entries that are not finite have to become zero as well)
+            self.G = np.zeros_like(self.G) if isinstance(self.G, np.ndarray) else type(self.G)(0)
         else:
             self.G = None
 
